@@ -155,9 +155,14 @@ def run(ctx):
     samples = [(x, rng) for x in samples for rng in ((1995, 2060), (x[0], x[0]), (x[0] - 4, x[0] + 1))]
     samples += [((2000, 1, 20, 0, 15, 0), (2000, 2000)), ((2000, 1, 3, 12, 15, 0), (2000, 2001)), ((2001, 2, 1, 8, 0, 0), (2001, 2001))]
 
+    # the same with every Jie late in the evening (23:17): from 23:00 an instant-level view of the Jie shows the NEXT day's pillar, the day count of the
+    # search must start from the pillar of the Jie's civil day
+    terms_late = typical_terms(range(lo - 1, hi + 2), sec=dict((i, 23 * 3600 + 17 * 60) for i in range(1, 24, 2)))
+    samples += [((2000, mo, dd, h, 30, 0), rng, True) for (mo, dd) in ((3, 10), (12, 20), (8, 8)) for h in (0, 10, 14, 23) for rng in ((1995, 2060), (2000, 2000))]
+
     def search(xr):
-        x, rng = xr
-        cm = CalModel(I, terms_l, months_l)
+        x, rng = xr[0], xr[1]
+        cm = CalModel(I, terms_late if len(xr) > 2 else terms_l, months_l)
         st = cm.solar_time(*x)
         ec = t.m(t.m(st, 'get_lunar_hour'), 'get_eight_char')
         want = t.name(ec)
